@@ -129,6 +129,12 @@ def select_call(sq, qc, c):
     elif k == 'lock_with_behavior': e.call(SEL + 'lock_with_behavior', [r, Adt('LockType', c[1], []), Adt('LockBehavior', c[2], [])])
     elif k == 'lock_with_tables': e.call(SEL + 'lock_with_tables::<types::TableRef, Vec<types::TableRef>>', [r, Adt('LockType', c[1], []), vec([tableref(sq, x) for x in c[2]])])
     elif k == 'with_cte': e.call(SEL + 'with_cte::<query::with::WithClause>', [r, with_clause(sq, c[1])])
+    elif k == 'table_sample':
+        rep = none() if len(c) < 4 or c[3] is None else some(('float', c[3], 'f64'))
+        e.call('<query::select::SelectStatement as extension::postgres::select::PostgresSelectStatementExt>::table_sample', [r, Adt('SampleMethod', c[1], []), ('float', c[2], 'f64'), rep])
+    elif k == 'index_hint':
+        meth = {'use': 'use_index', 'force': 'force_index', 'ignore': 'ignore_index'}[c[1]]
+        e.call('<query::select::SelectStatement as extension::mysql::select::MySqlSelectStatementExt>::%s::<%s>' % (meth, DI), [r, sq.iden(c[2]), Adt('IndexHintScope', c[3], [])])
     elif k in ('clear_selects', 'from_clear', 'reset_limit', 'reset_offset'): e.call(SEL + k, [r])
     else: raise Unsupported('select call ' + k)
 
